@@ -127,10 +127,18 @@ func c10Gen(c *engine.C) engine.Case {
 				add(&jg.Method{Mods: []string{"public"}, Ret: "void", Name: "setN", Params: []jg.Param{{Type: "int", Name: "v"}}, Body: []jg.Stmt{jg.St(jg.T("n = v;"))}}, &c10Meta{})
 			}
 		}
+		// smelly methods may carry accessor-style names (get*/set*): thresholds apply to them all the same
+		accessorNames := c.Bool("smelly-methods-named-like-accessors")
+		nm := func(neutral, accessor string) string {
+			if accessorNames {
+				return accessor
+			}
+			return neutral
+		}
 		// long method around the threshold
 		if lt := []int{0, 29, 30, 31, 32}[c.Choose(5, "long-method")]; lt > 0 {
 			how := engine.PickTag(c, "long-layout", "plain", "annotation-above", "comments", "blanks")
-			m := &jg.Method{Mods: []string{"public"}, Ret: "int", Name: "longOne"}
+			m := &jg.Method{Mods: []string{"public"}, Ret: "int", Name: nm("longOne", "getLongOne")}
 			if how == "annotation-above" {
 				m.Anns = []jg.Ann{{Name: "Deprecated"}}
 			}
@@ -138,7 +146,7 @@ func c10Gen(c *engine.C) engine.Case {
 			add(m, &c10Meta{})
 		}
 		if pc := []int{0, 4, 5, 6}[c.Choose(4, "param-count")]; pc > 0 {
-			m := &jg.Method{Mods: []string{"public"}, Ret: "void", Name: "manyParams", Body: filler(1, "")}
+			m := &jg.Method{Mods: []string{"public"}, Ret: "void", Name: nm("manyParams", "setAll"), Body: filler(1, "")}
 			for i := 0; i < pc; i++ {
 				m.Params = append(m.Params, jg.Param{Type: "int", Name: fmt.Sprintf("a%d", i)})
 			}
@@ -161,7 +169,7 @@ func c10Gen(c *engine.C) engine.Case {
 		}
 		if nif > 0 || nsw > 0 || height > 1 || nestedComplex {
 			meta := &c10Meta{}
-			m := &jg.Method{Mods: []string{"public"}, Ret: "void", Name: "branchy"}
+			m := &jg.Method{Mods: []string{"public"}, Ret: "void", Name: nm("branchy", "getStatus")}
 			together := true
 			if nif > 0 && nsw > 0 {
 				together = !c.Bool("ifs-and-switches-in-separate-methods")
@@ -184,7 +192,7 @@ func c10Gen(c *engine.C) engine.Case {
 			} else {
 				add(m, meta)
 				meta2 := &c10Meta{}
-				m2 := &jg.Method{Mods: []string{"public"}, Ret: "void", Name: "switchy"}
+				m2 := &jg.Method{Mods: []string{"public"}, Ret: "void", Name: nm("switchy", "setSwitches")}
 				for i := 0; i < nsw; i++ {
 					m2.Body = append(m2.Body, c10SwitchStmt(meta2, i%2))
 				}
